@@ -265,11 +265,92 @@ def c_tfp(_):
     return ok
 
 
+def c_mean(xs):
+    a = np.array(xs)
+    m, m2 = float(np.mean(a)), float(a.mean())
+    ok = eqf(m, m2) and isnan(float(np.mean(np.array([]))))
+    if any(isnan(v) for v in xs):
+        return ok and isnan(m)
+    if any(math.isinf(v) for v in xs):
+        return ok
+    tol = 1e-9 * max(1.0, max(abs(v) for v in xs))
+    ok = ok and math.isfinite(m) and min(xs) - tol <= m <= max(xs) + tol
+    if all(v >= 0 for v in xs):
+        ok = ok and m >= 0 and ((m == 0) == all(v == 0 for v in xs))
+    sq = (a - max(xs)) ** 2                       # the way the code under contract uses it: mean of squares
+    ok = ok and (float(np.mean(sq)) == 0) == all(v == max(xs) for v in xs)
+    return ok
+
+
+def c_nansum(xs):
+    if any(math.isinf(v) for v in xs):
+        return True
+    nn = [v for v in xs if not isnan(v)]
+    s = float(np.nansum(np.array(xs)))
+    return abs(s - math.fsum(nn)) <= 1e-9 * max(1.0, max([abs(v) for v in nn] or [0.0])) * max(1, len(nn))
+
+
+def c_spread(xs):
+    a = np.array(xs)
+    if any(math.isinf(v) for v in xs):
+        return True
+    nn = [v for v in xs if not isnan(v)]
+    ok = True
+    for f, nan_aware in ((np.var, False), (np.std, False), (np.nanvar, True), (np.nanstd, True)):
+        s = float(f(a))
+        if not nn or (not nan_aware and len(nn) != len(xs)):
+            ok = ok and isnan(s)
+        elif len(set(nn)) == 1:
+            ok = ok and math.isfinite(s) and 0 <= s <= 1e-9 * max(1.0, abs(nn[0])) ** 2
+        else:
+            ok = ok and math.isfinite(s) and s > 0
+    ok = ok and eqf(float(a.std()), float(np.std(a))) and eqf(float(a.var()), float(np.var(a)))
+    return ok
+
+
+def c_where(xs):
+    a = np.array(xs)
+    thr = xs[0]
+    w = np.where(a > thr, a, np.nan)
+    ok = all(eqf(float(w[i]), xs[i] if (not isnan(xs[i]) and xs[i] > thr) else NAN) for i in range(len(xs))) and not np.shares_memory(w, a)
+    w2 = np.where(np.isnan(a), 0.0, a * 2)
+    ok = ok and all(eqf(float(w2[i]), 0.0 if isnan(xs[i]) else xs[i] * 2) for i in range(len(xs)))
+    c2 = a.reshape(len(xs), 1)
+    w3 = np.where(c2 >= thr, c2, -1.0)
+    ok = ok and w3.shape == c2.shape and all(eqf(float(w3[i, 0]), xs[i] if (not isnan(xs[i]) and xs[i] >= thr) else -1.0) for i in range(len(xs)))
+    return ok
+
+
+def c_misc(xs):
+    a = np.array(xs)
+    b = a[::-1].copy()
+    mx, mn = np.maximum(a, b), np.minimum(a, 1.0)
+    ok = all(eqf(float(mx[i]), NAN if (isnan(xs[i]) or isnan(float(b[i]))) else max(xs[i], float(b[i]))) for i in range(len(xs)))
+    ok = ok and all(eqf(float(mn[i]), NAN if isnan(xs[i]) else min(xs[i], 1.0)) for i in range(len(xs)))
+    sg, sq = np.sign(a), np.square(a)
+    ok = ok and all(eqf(float(sg[i]), NAN if isnan(xs[i]) else (1.0 if xs[i] > 0 else (-1.0 if xs[i] < 0 else 0.0))) for i in range(len(xs)))
+    ok = ok and all(eqf(float(sq[i]), xs[i] * xs[i]) for i in range(len(xs)))
+    ok = ok and int(np.count_nonzero(a)) == sum(1 for v in xs if v != 0) and int(np.count_nonzero(np.isnan(a))) == sum(1 for v in xs if isnan(v))
+    ok = ok and all(eqf(float(np.abs(a)[i]), abs(xs[i])) for i in range(len(xs)))
+    return ok
+
+
+def c_views(xs):
+    a = np.array(xs)
+    c2 = a.reshape(-1, 1)
+    ok = c2.shape == (len(xs), 1) and np.shares_memory(c2, a) and np.shares_memory(a.ravel(), a) and np.shares_memory(c2.ravel(), c2) and a.ravel() is not None
+    ok = ok and np.shares_memory(a[:, np.newaxis], a) and not np.shares_memory(a.flatten(), a) and not np.shares_memory(a.copy(), a) and not np.shares_memory(np.copy(a), a)
+    ok = ok and np.reshape(c2, (len(xs),)).shape == (len(xs),) and c2.reshape(-1).shape == (len(xs),)
+    return ok
+
+
 CONTRACTS = {
     'numpy.nanmin/nanmax': [c_nanminmax, c_nanminmax_empty], 'numpy.min/max': [c_minmax], 'numpy.nanmedian': [c_nanmedian], 'numpy.median': [c_median],
     'numpy.nanmean': [c_nanmean], 'numpy.nanstd': [c_nanstd], 'ndarray.sum': [c_sum], 'numpy.searchsorted': [c_searchsorted], 'numpy.unique': [c_unique],
     'scipy.stats.rankdata': [c_rankdata], 'numpy.argmin': [c_argmin], 'numpy.interp': [c_interp], 'numpy.masks_and_copies': [c_mask],
     'scalar_math_and_transcendental_axioms': [c_scalar_math],
+    'numpy.mean': [c_mean], 'numpy.nansum': [c_nansum], 'numpy.var/std': [c_spread, c_nanstd], 'numpy.where': [c_where],
+    'numpy.elementwise_misc': [c_misc], 'numpy.views': [c_views],
     'tfp.bijectors.SoftClip': [c_tfp], 'tfp.distributions.Normal.quantile': [c_tfp],
 }
 
